@@ -1,4 +1,264 @@
-import Stbem.Model.Mesh
+import Stbem.Props.C02
+import Stbem.Lemmas.MeshKids
+
+/-!
+# C06 — Dörfler marking and refinement
+
+For non-negative indicators and `0 ≤ θ ≤ 1` the marked contributions form the **shortest non-empty
+prefix** of the (descending) ordering whose sum reaches `θ²·total`; every marked element ends up
+bisected in the marked directions; **the call never fails** on a mesh satisfying the invariant.
+
+* marking (pure list lemmas, `Stbem.Lemmas.MeshBulk`): `takeBulk_prefix`, `takeBulk_ne_nil`,
+  `takeBulk_reaches`, `takeBulk_minimal`, `bulk_bound_reached`, `sortDesc_perm`, `sortDesc_sorted`;
+  assembled here in `marking_shortest_prefix`, `dorflerIso_marking`, `dorflerAniso_marking`;
+* the level-sorted phase (`Stbem.Lemmas.MeshPhase`): `refinePhase_ok`;
+* the two routines (`Stbem.Lemmas.MeshDorfler`): `dorflerIso_ok`, `dorflerIso_marked_refined`,
+  `dorflerAniso_ok`, `dorflerAniso_marked_refined`.
+
+`dorflerAniso` looks the children of a space-marked, time-refined element up in the `kids` table.
+`Inv` says nothing about that table, so the anisotropic routine needs the additional invariant
+`KidsOK` (no entry of the table has a current leaf as parent; holds initially, preserved by all
+bisections); `dorflerAniso_needs_kidsOK` exhibits a mesh with `Inv` and a corrupt table on which the
+call fails.
+-/
 namespace Stbem.Mesh
-theorem placeholder_C06 : True := trivial
+
+/-! ## A. marking -/
+
+/-- the marked entries `takeBulk (θ²·total) 0 l` are a non-empty prefix of `l`, their sum reaches
+`θ²·total`, and every strictly shorter non-empty prefix stays below -/
+theorem marking_shortest_prefix {α} (l : List (Rat × α)) (θ : Rat) (hv : ∀ p ∈ l, 0 ≤ p.1)
+    (h0 : 0 ≤ θ) (h1 : θ ≤ 1) (hl : l ≠ []) :
+    takeBulk (sumQ (l.map (·.1)) * θ ^ 2) 0 l <+: l ∧
+    takeBulk (sumQ (l.map (·.1)) * θ ^ 2) 0 l ≠ [] ∧
+    sumQ (l.map (·.1)) * θ ^ 2 ≤ sumQ ((takeBulk (sumQ (l.map (·.1)) * θ ^ 2) 0 l).map (·.1)) ∧
+    ∀ p, p <+: takeBulk (sumQ (l.map (·.1)) * θ ^ 2) 0 l →
+      p.length < (takeBulk (sumQ (l.map (·.1)) * θ ^ 2) 0 l).length → p ≠ [] →
+      sumQ (p.map (·.1)) < sumQ (l.map (·.1)) * θ ^ 2 :=
+  bulk_spec l θ _ rfl hv h0 h1 hl
+
+/-- `dorfler_refine_isotropic`: the list that is scanned is the permutation `perm` of the
+(indicator, leaf) pairs; the marked cells are the second components of the shortest non-empty prefix
+reaching `θ²·Σ eta` -/
+theorem dorflerIso_marking (m : Mesh) (eta : List Rat) (perm : List Nat) (θ : Rat)
+    (hlen : eta.length = m.leaves.length) (hperm : perm.Perm (List.range eta.length))
+    (hv : ∀ v ∈ eta, 0 ≤ v) (h0 : 0 ≤ θ) (h1 : θ ≤ 1) (hne : eta ≠ []) :
+    (isoSorted m eta perm).Perm (eta.zip m.leaves) ∧
+    isoMarked m eta perm θ = (takeBulk (sumQ eta * θ ^ 2) 0 (isoSorted m eta perm)).map (·.2) ∧
+    takeBulk (sumQ eta * θ ^ 2) 0 (isoSorted m eta perm) <+: isoSorted m eta perm ∧
+    takeBulk (sumQ eta * θ ^ 2) 0 (isoSorted m eta perm) ≠ [] ∧
+    sumQ eta * θ ^ 2 ≤ sumQ ((takeBulk (sumQ eta * θ ^ 2) 0 (isoSorted m eta perm)).map (·.1)) ∧
+    ∀ p, p <+: takeBulk (sumQ eta * θ ^ 2) 0 (isoSorted m eta perm) →
+      p.length < (takeBulk (sumQ eta * θ ^ 2) 0 (isoSorted m eta perm)).length → p ≠ [] →
+      sumQ (p.map (·.1)) < sumQ eta * θ ^ 2 := by
+  have hfst := isoSorted_fst m eta perm hlen hperm
+  have hl : isoSorted m eta perm ≠ [] := by
+    intro e
+    have := isoSorted_length m eta perm hlen hperm
+    rw [e] at this
+    cases eta with
+    | nil => exact hne rfl
+    | cons a l => simp at this
+  refine ⟨isoSorted_perm m eta perm hlen hperm, rfl, ?_⟩
+  refine bulk_spec (isoSorted m eta perm) θ (sumQ eta) (sumQ_perm hfst.symm) ?_ h0 h1 hl
+  intro p hp
+  exact hv p.1 (hfst.mem_iff.mp (List.mem_map.mpr ⟨p, hp, rfl⟩))
+
+/-- `dorfler_refine_anisotropic`: the `2·n` directional indicators are sorted descending (stable);
+the marked (cell, direction) pairs are the shortest non-empty prefix reaching `θ²·Σ (ηt + ηx)` -/
+theorem dorflerAniso_marking (m : Mesh) (eta : List (Rat × Rat)) (θ : Rat)
+    (hlen : eta.length = m.leaves.length) (hv : ∀ p ∈ eta, 0 ≤ p.1 ∧ 0 ≤ p.2)
+    (h0 : 0 ≤ θ) (h1 : θ ≤ 1) (hne : eta ≠ []) :
+    (sortDesc (anisoErrs m eta)).Perm (anisoErrs m eta) ∧
+    (sortDesc (anisoErrs m eta)).Pairwise (fun a b => a.1 ≥ b.1) ∧
+    anisoMarked m eta θ =
+      (takeBulk (sumQ (eta.map fun p => p.1 + p.2) * θ ^ 2) 0 (sortDesc (anisoErrs m eta))).map (·.2) ∧
+    takeBulk (sumQ (eta.map fun p => p.1 + p.2) * θ ^ 2) 0 (sortDesc (anisoErrs m eta)) <+:
+      sortDesc (anisoErrs m eta) ∧
+    takeBulk (sumQ (eta.map fun p => p.1 + p.2) * θ ^ 2) 0 (sortDesc (anisoErrs m eta)) ≠ [] ∧
+    sumQ (eta.map fun p => p.1 + p.2) * θ ^ 2 ≤
+      sumQ ((takeBulk (sumQ (eta.map fun p => p.1 + p.2) * θ ^ 2) 0
+        (sortDesc (anisoErrs m eta))).map (·.1)) ∧
+    ∀ p, p <+: takeBulk (sumQ (eta.map fun p => p.1 + p.2) * θ ^ 2) 0 (sortDesc (anisoErrs m eta)) →
+      p.length < (takeBulk (sumQ (eta.map fun p => p.1 + p.2) * θ ^ 2) 0
+        (sortDesc (anisoErrs m eta))).length → p ≠ [] →
+      sumQ (p.map (·.1)) < sumQ (eta.map fun p => p.1 + p.2) * θ ^ 2 :=
+  ⟨sortDesc_perm _, sortDesc_sorted _, rfl,
+    bulk_spec (sortDesc (anisoErrs m eta)) θ _ (aniso_total m eta hlen)
+      (aniso_nonneg m eta hlen hv) h0 h1 (anisoErrs_ne_nil m eta hlen hne)⟩
+
+/-! ## B. the refinement never fails -/
+
+/-- the level-sorted phase succeeds when the marked cells are distinct leaves; every marked cell is
+gone afterwards, the returned children are distinct leaves of the result, two per marked cell -/
+theorem refinePhase_ok (m : Mesh) (h : Inv m) (marked : List Cell) (ax : Ax)
+    (hm : ∀ c ∈ marked, c ∈ m.leaves) (hnd : marked.Nodup) :
+    ∃ r, refinePhase m marked ax = .ok r ∧ Inv r.1 ∧ Refines m r.1 ∧
+      (∀ c ∈ marked, c ∉ r.1.leaves) ∧ (∀ k ∈ r.2, k ∈ r.1.leaves) ∧ r.2.Nodup ∧
+      r.2.length = 2 * marked.length :=
+  refinePhase_ok' m h marked ax hm hnd
+
+/-- in a phase every original leaf is bisected at most once: each leaf of the result is an original
+leaf or lies in an original leaf exactly one level above (in the axis of the phase) -/
+theorem refinePhase_once (m : Mesh) (h : Inv m) (marked : List Cell) (ax : Ax)
+    (hm : ∀ c ∈ marked, c ∈ m.leaves) (hnd : marked.Nodup) (r : Mesh × List Cell)
+    (hr : refinePhase m marked ax = .ok r) :
+    ∀ d ∈ r.1.leaves, d ∈ m.leaves ∨ ∃ o ∈ m.leaves, d.Sub o ∧ d.level ax = o.level ax + 1 := by
+  obtain ⟨r', f, hr', -, hQ, -⟩ := refinePhase_spec m h marked ax hm hnd
+  rw [hr] at hr'
+  cases hr'
+  exact hQ.2.1
+
+theorem dorflerIso_ok (m : Mesh) (h : Inv m) (eta : List Rat) (perm : List Nat) (θ : Rat)
+    (hlen : eta.length = m.leaves.length) (hperm : perm.Perm (List.range eta.length)) :
+    ∃ m', dorflerIso m eta perm θ = .ok m' ∧ Inv m' ∧ Refines m m' := by
+  obtain ⟨m', h1, h2, h3, -⟩ := dorflerIso_full m h eta perm θ hlen hperm
+  exact ⟨m', h1, h2, h3⟩
+
+/-- the marked cells are distinct leaves -/
+theorem dorflerIso_marked_leaves (m : Mesh) (h : Inv m) (eta : List Rat) (perm : List Nat) (θ : Rat)
+    (hlen : eta.length = m.leaves.length) (hperm : perm.Perm (List.range eta.length)) :
+    (∀ c ∈ isoMarked m eta perm θ, c ∈ m.leaves) ∧ (isoMarked m eta perm θ).Nodup := by
+  obtain ⟨m', -, -, -, -, h4, h5, -⟩ := dorflerIso_full m h eta perm θ hlen hperm
+  exact ⟨h4, h5⟩
+
+/-- marked ⇒ refined: every leaf of the result inside an iso-marked cell is (at least) one level
+deeper in both axes -/
+theorem dorflerIso_marked_refined (m : Mesh) (h : Inv m) (eta : List Rat) (perm : List Nat) (θ : Rat)
+    (hlen : eta.length = m.leaves.length) (hperm : perm.Perm (List.range eta.length)) (m' : Mesh)
+    (hr : dorflerIso m eta perm θ = .ok m') :
+    ∀ c ∈ isoMarked m eta perm θ, ∀ d ∈ m'.leaves, d.Sub c → c.lt + 1 ≤ d.lt ∧ c.lx + 1 ≤ d.lx := by
+  obtain ⟨m'', h1, -, -, -, -, -, h6⟩ := dorflerIso_full m h eta perm θ hlen hperm
+  rw [hr] at h1
+  cases h1
+  exact h6
+
+theorem dorflerIso_kidsOK (m : Mesh) (h : Inv m) (hK : KidsOK m) (eta : List Rat) (perm : List Nat)
+    (θ : Rat) (hlen : eta.length = m.leaves.length) (hperm : perm.Perm (List.range eta.length))
+    (m' : Mesh) (hr : dorflerIso m eta perm θ = .ok m') : KidsOK m' := by
+  obtain ⟨m'', h1, -, -, h4, -⟩ := dorflerIso_full m h eta perm θ hlen hperm
+  rw [hr] at h1
+  cases h1
+  exact h4 hK
+
+theorem dorflerAniso_ok (m : Mesh) (h : Inv m) (hK : KidsOK m) (eta : List (Rat × Rat)) (θ : Rat)
+    (hlen : eta.length = m.leaves.length) :
+    ∃ m', dorflerAniso m eta θ = .ok m' ∧ Inv m' ∧ Refines m m' ∧ KidsOK m' := by
+  obtain ⟨m', h1, h2, h3, h4, -⟩ := dorflerAniso_full m h hK eta θ hlen
+  exact ⟨m', h1, h2, h3, h4⟩
+
+theorem dorflerAniso_marked_leaves (m : Mesh) (h : Inv m) (eta : List (Rat × Rat)) (θ : Rat)
+    (hlen : eta.length = m.leaves.length) :
+    (∀ p ∈ anisoMarked m eta θ, p.1 ∈ m.leaves) ∧ (anisoMarked m eta θ).Nodup :=
+  ⟨(anisoMarked_props m h eta θ hlen).2, (anisoMarked_props m h eta θ hlen).1⟩
+
+/-- marked ⇒ refined: every leaf of the result inside a time-marked cell is deeper in time, inside
+a space-marked cell deeper in space -/
+theorem dorflerAniso_marked_refined (m : Mesh) (h : Inv m) (hK : KidsOK m) (eta : List (Rat × Rat))
+    (θ : Rat) (hlen : eta.length = m.leaves.length) (m' : Mesh)
+    (hr : dorflerAniso m eta θ = .ok m') :
+    (∀ c, (c, Ax.time) ∈ anisoMarked m eta θ → ∀ d ∈ m'.leaves, d.Sub c → c.lt + 1 ≤ d.lt) ∧
+    (∀ c, (c, Ax.space) ∈ anisoMarked m eta θ → ∀ d ∈ m'.leaves, d.Sub c → c.lx + 1 ≤ d.lx) := by
+  obtain ⟨m'', h1, -, -, -, -, -, h6, h7⟩ := dorflerAniso_full m h hK eta θ hlen
+  rw [hr] at h1
+  cases h1
+  exact ⟨h6, h7⟩
+
+/-- `KidsOK` holds initially and is preserved by `refineId`/`refineAll` (hence by every composite
+operation; for the Dörfler routines see `dorflerIso_kidsOK`, `dorflerAniso_ok`) -/
+theorem kidsOK_init (glue : Bool) (X T : List Rat) : KidsOK (init glue X T) := init_kidsOK glue X T
+
+theorem kidsOK_refineId (m : Mesh) (h : Inv m) (hK : KidsOK m) (id : Nat) (ax : Ax) (m' : Mesh)
+    (hr : refineId m id ax = .ok m') : KidsOK m' := refineId_kidsOK h hK hr
+
+theorem kidsOK_refineAll (m : Mesh) (h : Inv m) (hK : KidsOK m) (ids : List Nat) (ax : Ax)
+    (m' : Mesh) (hr : refineAll m ids ax = .ok m') : KidsOK m' := refineAll_kidsOK h hK hr
+
+/-- every other operation of the model preserves `Inv ∧ KidsOK` as well (whatever the arguments,
+provided the call returns) -/
+theorem invK_preserved :
+    (∀ m id r, InvK m → refineBoth m id = .ok r → InvK r.1) ∧
+    (∀ m m', InvK m → uniformRefine m = .ok m' → InvK m') ∧
+    (∀ m m', InvK m → uniformRefineSpace m = .ok m' → InvK m') ∧
+    (∀ m eta perm θ m', InvK m → dorflerIso m eta perm θ = .ok m' → InvK m') ∧
+    (∀ m eta θ m', InvK m → dorflerAniso m eta θ = .ok m' → InvK m') ∧
+    (∀ fixed fuel m p q K m', InvK m → grading fixed fuel m p q K = .ok m' → InvK m') :=
+  ⟨fun _ _ _ h hr => refineBoth_invK h hr, fun _ _ h hr => uniformRefine_invK h hr,
+    fun _ _ h hr => uniformRefineSpace_invK h hr, fun _ _ _ _ _ h hr => dorflerIso_invK h hr,
+    fun _ _ _ _ h hr => dorflerAniso_invK h hr,
+    fun fixed fuel _ _ _ _ _ h hr => grading_invK fixed fuel h hr⟩
+
+/-! ## non-vacuity -/
+
+/-- three roots `0, 1, 2` on the glued cylinder `[0,3) × [0,1)` -/
+def mesh3 : Mesh := init true [0, 1, 2, 3] [0, 1]
+
+theorem mesh3_inv : Inv mesh3 :=
+  init_inv true [0, 1, 2, 3] [0, 1] (by simp [StrictInc]; norm_num) (by simp [StrictInc]) (by simp) (by simp)
+
+theorem mesh3_kidsOK : KidsOK mesh3 := init_kidsOK _ _ _
+
+/-- `θ = 1/2`, indicators `1, 5, 2`: bound `2`, the largest indicator alone reaches it: only root `1`
+is marked; it is bisected in time (`3, 4`) and both children in space (`5..8`); the neighbours `0`, `2`
+stay (one level coarser, which 1-irregularity allows) -/
+theorem run_iso_half :
+    (isoMarked mesh3 [1, 5, 2] [1, 2, 0] (1 / 2)).map (·.id) = [1] ∧
+    leafIds (dorflerIso mesh3 [1, 5, 2] [1, 2, 0] (1 / 2)) = some ([0, 2, 5, 6, 7, 8], 9) := by
+  constructor <;> decide +kernel
+
+/-- `θ = 9/10`: bound `6.48`, the prefix `5, 2` is needed: roots `1` and `2` are marked -/
+theorem run_iso_most :
+    (isoMarked mesh3 [1, 5, 2] [1, 2, 0] (9 / 10)).map (·.id) = [1, 2] ∧
+    leafIds (dorflerIso mesh3 [1, 5, 2] [1, 2, 0] (9 / 10)) =
+      some ([0, 7, 8, 9, 10, 11, 12, 13, 14], 15) := by
+  constructor <;> decide +kernel
+
+/-- anisotropic: root `1` is marked in space, root `2` in time and in space; the space phase
+therefore refines the two time-children of `2`, which it finds in the `kids` table -/
+theorem run_aniso :
+    (anisoMarked mesh3 [(1, 0), (0, 5), (2, 2)] (9 / 10)).map (fun p => (p.1.id, p.2)) =
+      [(1, Ax.space), (2, Ax.time), (2, Ax.space)] ∧
+    leafIds (dorflerAniso mesh3 [(1, 0), (0, 5), (2, 2)] (9 / 10)) =
+      some ([0, 5, 6, 7, 8, 9, 10], 11) := by
+  constructor <;> decide +kernel
+
+/-- two adaptive rounds -/
+theorem run_two_rounds :
+    leafIds (do
+      let m ← dorflerIso mesh3 [1, 5, 2] [1, 2, 0] (1 / 2)
+      dorflerAniso m [(1, 0), (0, 5), (2, 2), (1, 1), (3, 0), (0, 0)] (9 / 10)) =
+      some ([6, 8, 10, 11, 12, 15, 16, 17, 18, 19, 20, 21, 22], 23) := by
+  decide +kernel
+
+/-- the hypotheses of the theorems are satisfiable: instances on `mesh3` -/
+example : ∃ m', dorflerIso mesh3 [1, 5, 2] [1, 2, 0] (9 / 10) = .ok m' ∧ Inv m' ∧ Refines mesh3 m' :=
+  dorflerIso_ok mesh3 mesh3_inv [1, 5, 2] [1, 2, 0] (9 / 10) (by decide) (by decide)
+
+example : ∃ m', dorflerAniso mesh3 [(1, 0), (0, 5), (2, 2)] (9 / 10) = .ok m' ∧ Inv m' ∧
+    Refines mesh3 m' ∧ KidsOK m' :=
+  dorflerAniso_ok mesh3 mesh3_inv mesh3_kidsOK _ _ (by decide)
+
+/-- `Inv` does not constrain the `kids` table -/
+theorem inv_kids_irrelevant {m : Mesh} (h : Inv m) (k : List (Nat × Nat × Nat)) :
+    Inv { m with kids := k } :=
+  ⟨h.dom, ⟨h.tiles.proper, h.tiles.inside, h.tiles.cover, h.tiles.disjoint⟩, h.irr, h.ids⟩
+
+/-- without `KidsOK` the anisotropic routine can fail although `Inv` holds: a stale entry for the
+leaf `1` sends the space phase to non-existent children -/
+theorem dorflerAniso_needs_kidsOK :
+    ∃ m : Mesh, Inv m ∧ ∃ (eta : List (Rat × Rat)) (θ : Rat), eta.length = m.leaves.length ∧
+      leafIds (dorflerAniso m eta θ) = none :=
+  ⟨{ mesh3 with kids := [(1, 50, 51)] }, inv_kids_irrelevant mesh3_inv _,
+    [(1, 0), (0, 5), (2, 2)], 9 / 10, by decide, by decide +kernel⟩
+
+/-- a permutation that is not one is rejected (`bad-perm`), a wrong length as well -/
+theorem run_iso_badperm :
+    leafIds (dorflerIso mesh3 [1, 5, 2] [1, 2, 7] (1 / 2)) = none ∧
+    leafIds (dorflerIso mesh3 [1, 5] [1, 0] (1 / 2)) = none := by
+  constructor <;> decide +kernel
+
 end Stbem.Mesh
+
+section Axioms
+open Stbem.Mesh
+end Axioms
